@@ -443,12 +443,7 @@ func (P *Prog) isPublishHelperCall(ci ssa.CallInstruction) bool {
 // with O_APPEND|O_CREATE|O_WRONLY and without O_TRUNC.
 func (R *Run) ruleIncompleteAppend(minSites int, fnNames ...string) {
 	P := R.P
-	const (
-		oWRONLY = 0x1
-		oCREATE = 0x40
-		oTRUNC  = 0x200
-		oAPPEND = 0x400
-	)
+	oWRONLY, oCREATE, oTRUNC, oAPPEND := P.osFlag("O_WRONLY"), P.osFlag("O_CREATE"), P.osFlag("O_TRUNC"), P.osFlag("O_APPEND")
 	checkOpen := func(open *ssa.Call, construct string, pathOK func(string) bool) {
 		flags, ok := constInt(open.Call.Args[1])
 		p := P.sym(open.Call.Args[0])
@@ -1305,7 +1300,7 @@ func (R *Run) rulePartialPreserved() {
 					R.ok("partial-preserved", construct, P.ipos(ci), "read-only use of the partial file")
 				case "OpenFile":
 					flags, ok := constInt(c.Args[i+1])
-					good := ok && (flags&0x3 == 0 || (flags&0x400 != 0 && flags&0x200 == 0))
+					good := ok && (flags&0x3 == 0 || (flags&P.osFlag("O_APPEND") != 0 && flags&P.osFlag("O_TRUNC") == 0))
 					R.check(good, "partial-preserved", construct, P.ipos(ci), "opened read-only or for appending", "the partial file is opened for writing without O_APPEND or with O_TRUNC: the bytes received before the interruption are overwritten or discarded")
 				case "Rename":
 					R.check(k == 0, "partial-preserved", construct, P.ipos(ci), "partial file renamed away (published)", "something is renamed onto a partial upload, replacing the bytes received so far")
